@@ -3,6 +3,7 @@ package bcl
 import (
 	"fmt"
 	"reflect"
+	"sort"
 	"strings"
 	"unicode"
 	"unicode/utf8"
@@ -72,6 +73,10 @@ func copyBlock(v reflect.Value, block Block) error {
 		}
 	}
 
+	// which block key was stored in which struct field, to refuse a second
+	// key folding onto the same field instead of silently overwriting it
+	stored := map[string]string{}
+
 	setField := func(name string, x any) error {
 		var f reflect.StructField
 		var ok bool
@@ -94,6 +99,11 @@ func copyBlock(v reflect.Value, block Block) error {
 		if !f.IsExported() {
 			return fmt.Errorf("found field %q but is unexported", f.Name)
 		}
+
+		if prev, ok := stored[f.Name]; ok {
+			return fmt.Errorf("block fields %q and %q both map to struct.%s", prev, name, f.Name)
+		}
+		stored[f.Name] = name
 
 		// f may be promoted from an embedded struct: follow the whole index path
 		fv, ferr := v.FieldByIndexErr(f.Index)
@@ -128,7 +138,15 @@ func copyBlock(v reflect.Value, block Block) error {
 		return err
 	}
 fields:
-	for fkey, fval := range block.Fields {
+	// in sorted order, so that the outcome (which error is reported first)
+	// does not depend on map iteration order
+	fkeys := make([]string, 0, len(block.Fields))
+	for fkey := range block.Fields {
+		fkeys = append(fkeys, fkey)
+	}
+	sort.Strings(fkeys)
+	for _, fkey := range fkeys {
+		fval := block.Fields[fkey]
 		err = setField(fkey, fval)
 		if err != nil {
 			return err
